@@ -28,10 +28,10 @@ import (
 )
 
 type state struct {
-	env *env.Env
-	o1  env.User
-	g1  env.User
-	ref string
+	env         *env.Env
+	o1          env.User
+	g1          env.User
+	ref         string
 	handlerOnly int
 }
 
